@@ -37,6 +37,7 @@ DEFAULTS = {
     'sample_rate': 100.0,
     'profile': None,           # per-template amplitude level permutations (list of lists) or None
     'spike_samples': None,     # explicit list or None
+    'feat_dtype': 'float32',   # storage dtype of pc_features / template_features
     'nonpositive_spikes': (),  # spikes whose first-component features are all <= 0
     'n_loc': None,             # width of the feature tables (default min(n_channels, 3))
     'n_tloc': None,            # width of the template-feature tables (default min(n_templates, 2))
@@ -112,6 +113,8 @@ def mixing_matrix(nc):
         for j in range(nc):
             if i != j:
                 wm[i, j] = 0.25 / (1 + abs(i - j)) * (1 if (i + j) % 2 else -1)
+                if i < j:
+                    wm[i, j] += 0.125        # not symmetric: a transposed product is observable
     return wm
 
 
@@ -302,11 +305,12 @@ def make_dataset(d, spec=None):
             rows = np.array([i for i in range(ns) if i % 2 == 0] or [0], dtype=np.int64)
             n_f = len(rows)
         npcs = 2
-        pcf = np.zeros((n_f, npcs, nloc), dtype=np.float32)
+        pcf = np.zeros((n_f, npcs, nloc), dtype=s['feat_dtype'])
         for i in range(n_f):
             for p in range(npcs):
                 for c in range(nloc):
-                    pcf[i, p, c] = ((i * 5 + p * 3 + c * 7 + fill) % 13 - 4) * 0.5
+                    pcf[i, p, c] = ((i * 5 + p * 3 + c * 7 + fill) % 13 - 4) * (
+                        0.5 if s['feat_dtype'] == 'float32' else 0.1)     # 0.1: not a float32 number
         for i in s['nonpositive_spikes']:
             if i < n_f:
                 pcf[i, 0, :] = [-1.0, 0.0, -0.5, -2.0][:nloc]
@@ -333,10 +337,10 @@ def make_dataset(d, spec=None):
         if s['tfeatures'] == 'sparse_rows':
             rows = np.array([i for i in range(ns) if i % 2 == 1] or [0], dtype=np.int64)
             n_f = len(rows)
-        tf = np.zeros((n_f, ntl), dtype=np.float32)
+        tf = np.zeros((n_f, ntl), dtype=s['feat_dtype'])
         for i in range(n_f):
             for c in range(ntl):
-                tf[i, c] = ((i * 3 + c * 5 + fill) % 11 + 1) * 0.25
+                tf[i, c] = ((i * 3 + c * 5 + fill) % 11 + 1) * (0.25 if s['feat_dtype'] == 'float32' else 0.1)
         truth['template_features'] = tf
         save('template_features.npy', tf)
         if s['tfeatures'] in ('sparse', 'sparse_rows'):
